@@ -44,6 +44,12 @@ def gen_test_class(rng, pkg, name, path, foreign=None, dup_bias=False):
         if rng.random() < 0.5: body.append(J.ExprS(J.Call(J.Name("repo"), "load", [])))
         hm = J.Method("helper%d" % h, None, [], body, ["private"])
         helpers.append((hm, has_assert))
+        if rng.random() < 0.3:
+            # an overload of the helper with one parameter that does the opposite (asserts / does not assert): a call
+            # is a call of the overload its argument count selects
+            obody = [J.ExprS(J.Call(None, "prepare" if has_assert else "verifyState", [J.Name("x")]))]
+            om = J.Method("helper%d" % h, None, [(J.T("int"), "x")], obody, ["private"])
+            helpers.append((om, not has_assert))
     nt = rng.randint(1, 5) if not dup_bias else rng.randint(7, 9)
     tests = []
     for i in range(nt):
@@ -84,7 +90,7 @@ def gen_test_class(rng, pkg, name, path, foreign=None, dup_bias=False):
                 stmts.append(("call", J.ExprS(J.Call(J.Name(foreign), rng.choice(["roundTrip", "dump"]), []))))
             elif kind == "helper" and helpers:
                 hm, ha = rng.choice(helpers)
-                stmts.append(("helper_assert" if ha else "helper_plain", J.ExprS(J.Call(None, hm.name, []))))
+                stmts.append(("helper_assert" if ha else "helper_plain", J.ExprS(J.Call(None, hm.name, [J.Lit("7")] if hm.params else []))))
         if shape < 0.12:
             pass                                   # no call at all
         elif shape < 0.24:
